@@ -46,3 +46,14 @@ package bifrost_rpc_access
 //@   cs local.bcast ensures len(sendQueue) == old(len(sendQueue)) || len(sendQueue) == old(len(sendQueue)) + 1
 //@   cs local.bcast ensures len(sendQueue) == old(len(sendQueue)) + 1 ==> sendQueue[len(sendQueue)-1] != nil && sendQueue[len(sendQueue)-1].Idle == isIdle && !sendQueue[len(sendQueue)-1].Exists && !sendQueue[len(sendQueue)-1].Removed
 //@   cs local.bcast ensures resIdle == isIdle && disposed == old(disposed)
+
+// Disposal and the main loop never queue availability reports; the loop takes the whole queue and
+// sends its messages in order.
+//@ func (*AccessRpcServiceServer).LookupRpcService$4
+//@   noframe
+//@   nosweep nil-deref
+//@   cs local.bcast ensures len(sendQueue) == old(len(sendQueue)) && disposed && resIdle == old(resIdle)
+//@ func (*AccessRpcServiceServer).LookupRpcService
+//@   noframe
+//@   nosweep nil-deref
+//@   cs local.bcast ensures len(sendQueue) <= old(len(sendQueue)) && disposed == old(disposed) && resIdle == old(resIdle)
